@@ -89,7 +89,7 @@ def check_coinbase_txin(ctx, oid="C15.2"):
         for user_len, legal in ((4, True), (100 - len(pre), True), (101 - len(pre), False)):
             ev.bind = {tm.length(cs_): user_len}
             s = ev.run(fi, {"block_height": h})
-            kind, val = rules.decided_outcome(s)
+            kind, val = rules.strict_outcome(s)
             n += 1
             label = "height %s, %d bytes of caller data (script %d bytes)" % (h, user_len, user_len + len(pre))
             if not legal:
@@ -128,7 +128,7 @@ def check_coinbase_tx(ctx, oid="C15.3"):
         for h in heights + ([150 * 33, 150 * 64] if regtest else []):
             ev.assumptions = {tm.truth(root): False}
             s = ev.run(fi, {"block_height": h, "block_reward": None, "regtest": regtest})
-            kind, val = rules.decided_outcome(s)
+            kind, val = rules.strict_outcome(s)
             v = first_value(val) if kind == "return" else None
             want = subsidy(h, regtest)
             n += 1
@@ -138,7 +138,7 @@ def check_coinbase_tx(ctx, oid="C15.3"):
             # explicit reward above the subsidy refused, equal accepted
             for rw, legal in ((want + 1, False), (want, True)) if want > 0 else ():
                 s2 = ev.run(fi, {"block_height": h, "block_reward": rw, "regtest": regtest})
-                k2, v2 = rules.decided_outcome(s2)
+                k2, v2 = rules.strict_outcome(s2)
                 if (k2 == "return") != legal:
                     R.check(oid, "REGION", fi, "explicit reward %d at height %d" % (rw, h), False,
                             "explicit reward %d at height %d (%s) is %s; maximum is %d" % (rw, h, "regtest" if regtest else "mainnet", "accepted" if k2 == "return" else "refused", want),
@@ -146,7 +146,7 @@ def check_coinbase_tx(ctx, oid="C15.3"):
     R.floor(oid, n, 30, "subsidy_height_classes")
     # no height: the given reward is used as is
     s = ev.run(fi, {"block_height": None, "block_reward": 123456, "regtest": False})
-    kind, val = rules.decided_outcome(s)
+    kind, val = rules.strict_outcome(s)
     R.check(oid, "REGION", fi, "no height: given reward used", kind == "return" and first_value(val) == 123456, "without a height the reward is %s" % tm.show(first_value(val) if kind == "return" else kind))
     # structure: one input built by coinbase_txin with the height; commitment iff root
     ev2 = ctx.evaluator(opaque={"bits.tx.tx", "bits.tx.txout", "bits.tx.coinbase_txin"})
@@ -154,7 +154,7 @@ def check_coinbase_tx(ctx, oid="C15.3"):
         ev2.assumptions = {tm.truth(root): given}
         ev2.bind = {tm.length(root): 32} if given else {}
         s = ev2.run(fi, {"block_height": 500000, "block_reward": None, "regtest": False})
-        kind, val = rules.decided_outcome(s)
+        kind, val = rules.strict_outcome(s)
         txin = tm.app("bits.tx.coinbase_txin", [cbs, b"\xff" * 4, 500000], ty=tm.BYTES)
         outs = [tm.app("bits.tx.txout", [subsidy(500000, False), spk], ty=tm.BYTES)]
         wit = []
